@@ -113,7 +113,7 @@ type fieldD struct {
 	Def      string
 	Rng      *rangeD
 	Options  []string
-	OptBrk   bool // options=[a,b] instead of options=a|b
+	OptBrk   bool   // options=[a,b] instead of options=a|b
 	FromStr  bool   // the `string` option
 	Shuffle  uint64 // != 0: the options are written in a pseudo-random order derived from it
 }
